@@ -266,13 +266,20 @@ pub fn model(data: &[u8], pos: usize, op: Op, be: bool) -> Expect {
                 Expect::Exactly(Res::Str(strip_unreal(&text)), pos + 1 + l)
             } else {
                 let n = l & 0x7f;
+                // the reader documents: "some unreal 2 games randomly insert an extra 0x01 here, not included in the
+                // length. Skip it if present". That rule decides the packets in which the data still fits after the
+                // skipped byte; an empty string followed by 01 and a string that only fits if the 01 is data stay open.
+                let mut skip = 0;
                 if rest.len() > 1 && rest[1] == 1 {
-                    return Expect::Open("unreal2 UCS-2 string preceded by a 01 byte");
+                    if n == 0 || 2 + 2 * n > rest.len() {
+                        return Expect::Open("unreal2 UCS-2 string preceded by a 01 byte (empty, or fitting only without the skip)");
+                    }
+                    skip = 1;
                 }
                 if 1 + 2 * n > rest.len() {
                     return Expect::Fail;
                 }
-                let body = &rest[1 .. 1 + 2 * n];
+                let body = &rest[1 + skip .. 1 + skip + 2 * n];
                 let units: Vec<u16> = body.chunks_exact(2).map(|c| u16::from_le_bytes([c[0], c[1]])).collect();
                 let dec: Result<String, _> = char::decode_utf16(units.iter().copied()).collect();
                 match dec {
@@ -281,7 +288,7 @@ pub fn model(data: &[u8], pos: usize, op: Op, be: bool) -> Expect {
                         if cs.iter().enumerate().any(|(i, c)| *c == '\u{1b}' && i + 3 >= cs.len()) {
                             return Expect::Open("unreal2 truncated colour escape");
                         }
-                        Expect::Exactly(Res::Str(strip_unreal(&t)), pos + 1 + 2 * n)
+                        Expect::Exactly(Res::Str(strip_unreal(&t)), pos + 1 + skip + 2 * n)
                     }
                     Err(_) => Expect::Fail,
                 }
